@@ -7,6 +7,8 @@ import logging
 
 from vp.core import main_wrapper
 
+logging.raiseExceptions = False
+logging.getLogger().setLevel(logging.CRITICAL)
 logging.getLogger("transitions").setLevel(logging.ERROR)
 logging.getLogger("transitions.core").setLevel(logging.ERROR)
 
